@@ -105,6 +105,15 @@ Theorem handler_told_composite : forall (h : handler) ids m ops i calls,
 Proof. exact handler_told_composite_full. Qed.
 Print Assumptions handler_told_composite.
 
+(* a finished source runner keeps counting: SourceComplete changes neither the upstream table nor the composite
+   (so composite_is_min / handler_told_composite above range over ALL runners' latest reports, finished or not:
+   OComplete contributes nothing to oop_msgs and removes nothing) *)
+Theorem source_complete_keeps_min : forall (h : handler) m st s,
+  r_ups (o_reg (fst (op_step h m st (OComplete s)))) = r_ups (o_reg st) /\
+  r_wm (o_reg (fst (op_step h m st (OComplete s)))) = r_wm (o_reg st).
+Proof. exact source_complete_keeps_table. Qed.
+Print Assumptions source_complete_keeps_min.
+
 (* ... and every TimerExpired the handler ever receives is not later than the composite that held right after
    one of the watermark messages handled so far (with batches > 1 a fired timer may be delivered later). *)
 Theorem no_timer_beyond_min_at_handler : forall (h : handler) ids m ops i calls,
@@ -142,3 +151,10 @@ Lemma handler_told_before_fix_refuted_w :
     nth_error (op_trace (fun _ _ => []) 1 {| o_reg := reg_new_before_fix ids; o_batch := [] |} ops) 0 = Some calls /\
     In c calls /\ c_told c <> pb_new (spec_composite ids (oop_msgs (firstn 1 ops))).
 Proof. exact handler_told_before_fix_refuted. Qed.
+
+(* a runner finishes with the lowest watermark: it still holds the minimum back *)
+Example complete_example :
+  map (map c_told) (op_trace (fun _ evs => map (fun e => match e with HK _ k ts => (k, ts) | HT k _ => (k, []) end) evs) 1 (op_new [1%N; 2%N])
+    [OWm 1 (Some (5, 0)); OWm 2 (Some (9, 0)); OEv 1 1 7 [Some (7, 0)]; OComplete 1; OWm 2 (Some (20, 0)); OEv 2 2 7 []])
+  = [[]; []; [(5, 0)]; []; []; [(5, 0)]].
+Proof. vm_compute. reflexivity. Qed.
